@@ -7,6 +7,7 @@ import collections
 import threading
 import time
 
+from . import tz
 from .tz import Resource, tawazi
 
 
@@ -20,7 +21,7 @@ def in_thread(fn, timeout):
             box["r"] = ("raise", e)
     th = threading.Thread(target=body, daemon=True)
     th.start()
-    th.join(timeout)
+    th.join(timeout * tz.LOAD)  # deadlines stretch with the machine's load
     return box.get("r", ("hang", None))
 
 
@@ -325,7 +326,7 @@ def concurrent_calls_stress(k, seconds):
 
     def worker(i):
         try:
-            barrier.wait(5)
+            barrier.wait(5 * tz.LOAD)
         except BaseException:  # noqa: BLE001
             pass
         j = 0
@@ -401,7 +402,7 @@ def wide_parallelism(k, is_async):
             try:
                 if bar is not None:
                     try:
-                        bar.wait(6)
+                        bar.wait(6 * tz.LOAD)
                         with lock:
                             live["met"] += 1
                     except threading.BrokenBarrierError:
@@ -519,7 +520,7 @@ def concurrent_cache_writes(k, tmpdir):
     for th in ths:
         th.start()
     for th in ths:
-        th.join(20)
+        th.join(20 * tz.LOAD)
     for i in range(4):
         r = res_.get(i)
         if r is None:
